@@ -432,7 +432,16 @@ def check_stable(pid, tier, seed):
     cw = [h for h in allw if sum(1 for s in h if s["op"] == "set") >= 1 and any(s["op"] == "store" for s in h)][:(6, 40)[ti]]
     cj = we.make_jobs(cw, "crash", [96], ["ident"], seed, prefix="c")
     eng.crash_rounds(cj, 1, ((300,), (3000,))[ti], 0, max_exh=8, nrandom=16, tag="kc")
-    return verdict(eng, pid, "model_checking", RULE_STABLE)
+    import checks_conc
+    cst = {}
+    vs, nscen = checks_conc.c08_stage(seed, tier, cst)
+    for v in vs:
+        eng.viols.append({"line": 0, "clause": v["clause"], "job": v["scenario"], "fork": None, "family": "conc", "tag": None,
+                          "inflight": "none", "ncrash": 0, "event": v["event"], "props": ["C08"],
+                          "replay_job": {"conc_scenario": v.get("scenario_obj")}})
+    eng.traces += nscen
+    eng.evals += nscen
+    return verdict(eng, pid, "model_checking", RULE_STABLE, extra_cov={"concurrent_client_scenarios": nscen, "concurrent_stage": cst})
 
 
 # ---------------------------------------------------------------------------
